@@ -51,6 +51,12 @@ var ruleTable = []RuleDef{
 	{"R-REV", (*Model).ruleREV, "the value bound to revSeqNo is (the row's revSeqNo scanned through the same transaction closure, or zero when there is no row) + 1, exactly one increment on every path; the virtual revision-id xattrs format the revSeqNo their own SELECT read"},
 	{"R-EXP", (*Model).ruleEXP, "(a) every expiry bound into a statement has passed through the offset-to-absolute function, is the row's preserved expiry, or is zero; (b) an operation that stores an expiry without posting an event arms the timer with that same value, and every other arm call gets an absolute expiry; (c) the arm function re-arms exactly when nothing is scheduled or the new expiry is earlier; (d) the timer callback clears the fired deadline and always re-arms from the min-expiry query; (h) the offset conversion applies exactly for 0 < exp <= 30 days"},
 	{"R-CHECKPOINT", (*Model).ruleCHECKPOINT, "the feed loop advances its delivered-CAS mark only from the event just handed to the callback, after the callback, and only upwards; the checkpoint document stores that mark; a resumed feed backfills from mark+1; the checkpoint is written when the loop ends"},
+	{"R-READ-ONCE", (*Model).ruleREADONCE, "a function that returns a document read outside a transaction obtains it from a single statement on documents"},
+	{"R-POST-ORDER", (*Model).rulePOSTORDER, "in the post function nothing that may acquire a lock is called before the fan-out that enqueues the event"},
+	{"R-FEEDMAP-WRITERS", (*Model).ruleFEEDWRITERS, "a feed-registry entry is only ever updated by appending one new feed to the existing entry"},
+	{"R-LOOPVAR", (*Model).ruleLOOPVAR, "with pre-1.22 loop-variable semantics (go.mod), no goroutine started inside a loop captures the loop variable"},
+	{"R-FEED-START", (*Model).ruleFEEDSTART, "on every path a started feed is registered for live events or has its end marker queued"},
+	{"R-TIMER", (*Model).ruleTIMER, "a new expiry timer is created only when the manager holds none"},
 }
 
 type PropDef struct {
